@@ -686,6 +686,14 @@ func runPipelines(f lib.Flags, res *lib.Result, drv *lib.Driver, rng *rand.Rand)
 			}
 			return a
 		}
+		// A Group's Pull runs group.Execute in a goroutine of its own: a panic there cannot be recovered and would take the
+		// whole harness down (and with it every finding made so far).  So first see whether Execute panics for this
+		// strategy and member count with members that answer at once (as gadapters.go does); if so that is the outcome.
+		if msg := executePanicsAnyPattern(c.Strat, c.N); msg != "" {
+			mon.Count("execute-panics-not-run")
+			pipelineMonitor(mon, c, plobs{Problem: "panic:" + strings.ReplaceAll(msg, " ", "_")})
+			continue
+		}
 		o := runPipeline(c)
 		model := ask(o)
 		suspicious := func(o plobs, model string) bool { return o.bad() || (model != "" && model != o.code()) }
@@ -717,4 +725,16 @@ func runPipelines(f lib.Flags, res *lib.Result, drv *lib.Driver, rng *rand.Rand)
 	if drv == nil {
 		tie.Fail(fmt.Errorf("no driver"))
 	}
+}
+
+// executePanicsAnyPattern: does group.Execute panic under this strategy for n members that all fail / all succeed at once?
+func executePanicsAnyPattern(strat string, n int) string {
+	allFail := make([]bool, n)
+	for k := range allFail {
+		allFail[k] = true
+	}
+	if msg := executePanics(strat, allFail); msg != "" {
+		return msg
+	}
+	return executePanics(strat, make([]bool, n))
 }
